@@ -80,6 +80,9 @@ def region_alphabet():
     add("arr_extmsg", [("Em", ("msg", True, [(("uint", 5), "x", 1)]))], ("arr", ("ref", "Em"), 2, False))
     add("extmsg_with_extarr", [("Em", ("msg", True, [(("uint", 2), "a", 1), (("arr", ("uint", 6), 2, True), "r", 2)]))], ("ref", "Em"))
     add("alias_extarr", [("Al", ("alias", ("arr", ("int", 7), 3, True)))], ("ref", "Al"))
+    add("extarr_of_alias_extarr", [("Row", ("alias", ("arr", ("uint", 8), 3, True)))], ("arr", ("ref", "Row"), 2, True))
+    add("extarr_of_alias_arr", [("Row", ("alias", ("arr", ("uint", 5), 2, False)))], ("arr", ("ref", "Row"), 2, True))
+    add("arr_of_alias_extarr", [("Row", ("alias", ("arr", ("bool",), 3, True)))], ("arr", ("ref", "Row"), 2, False))
     add("extmsg_in_extmsg", [("In", ("msg", True, [(("uint", 4), "i", 1)])),
                              ("Em", ("msg", True, [(("ref", "In"), "inner", 1), (("uint", 3), "t", 2)]))], ("ref", "Em"))
     return out
